@@ -202,6 +202,76 @@ def exec_case(ctx, seq) -> None:
                sample={"seq": [list(s) for s in seq][:4], "lines": [ln[:100].decode("utf-8", "replace") for ln in lines][:4]})
 
 
+def two_writer_tier(ctx):
+    """The library writes to the child's stdin from two places: the writer task (messages accepted on the write
+    stream) and the reader (the error it answers a batch with at a version without batching).  With large messages
+    and a child that drains slowly both are in flight together: the byte stream must still be whole lines."""
+    rng = ctx.sub_rng("twowriters")
+    n_cases = 24 if ctx.tier == "quick" else 300
+    for k in range(n_cases):
+        if not ctx.mine():
+            continue
+        if ctx.out_of_time("two-writer sessions"):
+            break
+        version = ("2025-06-18", "2025-06-18", "2025-03-26", None)[k % 4]
+        sizes = [rng.choice([10, 70_000, 140_000, 300_000, 65_535, 65_536, 65_537, 1_100_000]) for _ in range(rng.randint(1, 4))]
+        n_batches = rng.randint(1, 5)
+        delay = rng.choice([0.0, 0.01, 0.5])
+        steps: List[Any] = []
+        if version:
+            steps.append(("version", version))
+        expected = []
+        batch_line = (json.dumps([{"jsonrpc": "2.0", "method": "notifications/b", "params": {"i": 1}},
+                                  {"jsonrpc": "2.0", "id": 9, "method": "ping"}]) + "\n").encode()
+        slots = sorted(rng.randint(0, len(sizes)) for _ in range(n_batches))
+        for i, sz in enumerate(sizes):
+            for _ in range(slots.count(i)):
+                steps.append(("feed", batch_line))
+            shape = ("dict", "typed_request", "str_utf8", "typed_response")[(k + i) % 4]
+            o, e = mk((shape, "é" * (sz // 2) if i % 2 else "x" * sz, i + 1))
+            steps.append(("send", o))
+            expected.append(e)
+        for _ in range(slots.count(len(sizes))):
+            steps.append(("feed", batch_line))
+        steps += [("wait", 600.0), ("close_write",), ("wait", 60.0)]
+        case = {"two_writers": True, "k": k, "version": version, "sizes": sizes, "batches_at": slots, "stdin_delay": delay}
+        try:
+            out = run_stdio_script(steps, stdin_delay=delay, tie_seed=k)
+        except Exception as ex:  # noqa
+            ctx.violation("writer_crashed_harness", f"two-writer session failed: {ex!r}", case)
+            continue
+        ctx.count("sessions")
+        ctx.count("two_writer_sessions")
+        if version == "2025-06-18":
+            ctx.count("two_writer_nobatch_sessions")
+        data: bytes = out["stdin_before_exit"]
+        ctx.count("stdin_bytes", len(data))
+        if data and not data.endswith(b"\n"):
+            ctx.violation("unterminated_last_line", f"stdin bytes do not end with LF: {data[-40:]!r}", case)
+        got, rejections, broken = [], 0, 0
+        for ln in data.split(b"\n")[:-1]:
+            try:
+                v = json.loads(ln.decode("utf-8"))
+            except Exception:
+                broken += 1
+                continue
+            if isinstance(v, dict) and "error" in v and "method" not in v:
+                rejections += 1
+                continue
+            got.append(tagged(v))
+        ctx.count("rejections_written", rejections)
+        if broken:
+            ctx.violation("line_not_json", f"{broken} stdin line(s) are not JSON: writes from the writer task and the "
+                          f"reader's batch rejection were interleaved inside a line (sizes {sizes}, version {version})", case)
+        elif got != [tagged(e) for e in expected]:
+            ctx.violation("content_altered", f"{len(got)} message lines reached the child for {len(expected)} sent "
+                          f"(sizes {sizes}, version {version}, {rejections} rejections)", case)
+        ctx.record(case, shape=[len(got), rejections], nontrivial=True,
+                   cls=f"two_writers:{version}:{'slow' if delay else 'fast'}",
+                   sample={"version": version, "sizes": sizes, "batches_at": slots, "stdin_delay": delay,
+                           "lines": len(got), "rejections": rejections})
+
+
 def real_child_tier(ctx):
     """Real pipe: a child copies stdin to a file until EOF and exits 0."""
     import os
@@ -275,12 +345,19 @@ def run(ctx):
         if ctx.out_of_time():
             break
         exec_case(ctx, seq)
+    two_writer_tier(ctx)
     if ctx.tier == "thorough" and ctx.shard[0] == 0:
         real_child_tier(ctx)
     ctx.require_reached("sessions")
     ctx.require_reached("stdin_bytes")
+    if ctx.counters.get("two_writer_nobatch_sessions"):
+        ctx.require_reached("rejections_written")
 
 
 def replay(ctx, case):
+    if case.get("two_writers"):
+        ctx.notes.append("two-writer cases are regenerated from the seed: re-running that tier")
+        two_writer_tier(ctx)
+        return
     exec_case(ctx, [tuple(s) for s in case["seq"]])
     ctx.record({"x": 1}, shape=1)
